@@ -1431,4 +1431,26 @@ theorem member_outcome (ty : GType) (t : String) (r : Raw) :
   · have : ¬ (some t = some ty.tag) := fun h' => h (by injection h' with h'; exact h'.symm)
     simp [h, this]
 
+/-! ### call signatures (follow-up: construction paths) -/
+
+/-- the bindings the leftover parameters contribute when each has a default -/
+def defaultsOf {α} (xs : Sig) : List (String × Arg α) :=
+  xs.filterMap fun p => p.dflt.map fun d => (p.name, .dflt d)
+
+theorem bindDefaults_eq {α} (xs : Sig) (h : xs.all (·.dflt.isSome) = true) :
+    bindDefaults (α := α) xs = some (defaultsOf xs) := by
+  induction xs with
+  | nil => rfl
+  | cons x xs ih =>
+    simp only [List.all_cons, Bool.and_eq_true] at h
+    obtain ⟨d, hd⟩ := Option.isSome_iff_exists.1 h.1
+    simp [bindDefaults, hd, ih h.2, defaultsOf]
+
+theorem bindDefaults_filter {α} (xs : Sig) (f : Param → Bool) (h : xs.all (·.dflt.isSome) = true) :
+    bindDefaults (α := α) (xs.filter f) = some (defaultsOf (xs.filter f)) := by
+  apply bindDefaults_eq
+  rw [List.all_eq_true] at h ⊢
+  intro p hp
+  exact h p (List.mem_filter.1 hp).1
+
 end SE.Validate
